@@ -37,7 +37,6 @@ from ._util_C import (
     origins,
     resolves_to,
     strip_await,
-    subscript_key,
     within,
 )
 
@@ -70,6 +69,7 @@ META = {
         "schema validation of the StreamFlow file; filters"
     ),
     "assumptions": [
+        "R2 is deliberately strict: guarding the cycle check with any condition (even `if self.deployments:`) is reported",
         "PurePosixPath.parts yields the root and then one component per level",
         "WorkflowConfig objects are only created through WorkflowConfig.__init__",
     ],
@@ -340,6 +340,12 @@ def r2(ctx):
            instance="check:visited-test", message="the wraps walk carries no visited-set membership test: cyclic chains are "
            "not rejected (and the walk never ends)")
     if len(members) != 1:
+        # the dependent clauses cannot hold without the test; keep them as (failed) instances so that the report is
+        # a violation naming the construct rather than a floor error
+        for inst in ("visited-fresh", "every-iteration", "advanced-key", "raise", "add"):
+            ctx.ob("R2", f"visited-set discipline ({inst})", False, func=f, node=loop, instance=f"check:{inst}",
+                   message="no visited-set membership test in the wraps walk")
+        _gwd_reachability(ctx, p, loop_key=None)
         return
     mt, vis, setdefs = members[0]
     hit_edge = "t" if isinstance(mt.ast.ops[0], ast.In) else "f"
@@ -377,11 +383,17 @@ def r2(ctx):
     ctx.ob("R2", "a new deployment is recorded in the visited set before the walk continues", ok_add, func=f, node=mt.ast,
            instance="check:add", message=f"`{vis}.add({unparse(key)})` is missing on a path back to the loop test: a cycle "
            "that does not contain the start deployment is never detected")
-    # ---- _get_workdir: only reachable through a constructed WorkflowConfig; same chain as the checker
+    _gwd_reachability(ctx, p, loop_key=_norm_key(adv, wvar))
+
+
+def _gwd_reachability(ctx, p, loop_key):
+    """_get_workdir: only reachable through a constructed WorkflowConfig; same chain as the checker."""
     gw = p.func(GWD)
     sites = [(cf, c) for cf, c in p.calls_by_attr("_get_workdir")]
-    ctx.require(bool(sites), "C28.R2: _get_workdir has no caller")
     gbc = p.func(GBC)
+    if not sites:
+        ctx.ob("R2", "_get_workdir has no caller (its unbounded walk is unreachable)", True, func=gw, node=gw.node,
+               instance="gwd-caller:none", trivial=True)
     for cf, c in sites:
         ok = cf.qualname == GBC and len(c.args) >= 2 and is_name(c.args[1], gbc.params[2]) \
             and p.ann_to_class(gbc.module, gbc.param_annotation(gbc.params[2])) == WC
@@ -389,7 +401,11 @@ def r2(ctx):
                instance=f"gwd-caller:{cf.qualname}",
                message="_get_workdir (unbounded walk over wraps) is reachable without a cycle-checked WorkflowConfig")
     _, wvar2, _, adv2 = _wraps_walk(ctx, gw, "R2")
-    k1, k2 = _norm_key(adv, wvar), _norm_key(adv2, wvar2)
+    k1, k2 = loop_key, _norm_key(adv2, wvar2)
+    if k1 is None:
+        chk = p.func(CHECK)
+        _, wv, _, adv1 = _wraps_walk(ctx, chk, "R2")
+        k1 = _norm_key(adv1, wv)
     ctx.ob("R2", "checker and _get_workdir follow the wraps chain with the same key expression",
            k1 == k2 and "'deployment'" in k1, func=gw, node=adv2, instance="wraps-key-agreement",
            message=f"cycle check follows `{k1}` but _get_workdir follows `{k2}`")
